@@ -129,11 +129,20 @@ def check_vcf(row: dict, r1, r2, prev_ref: str | None, prev_alt: str | None, rc:
         if not rec['ref'] or not rec['alt'] or rec['ref'] == '.' or rec['alt'] == '.':
             out.append((f'vcf_{tag}_empty_allele', f'empty allele in {rec}'))
             continue
-        if bg:
-            continue   # allele content under background variants is C06's relation
-        X = (prev_ref or '?') + ref_seq if tag == 'ref' else (prev_alt or '?') + pam_seq
-        o = rec['pos'] - (rs - 1)
         n = len(rec['ref'])
+        o_ref = rec['pos'] - (rs - 1)           # offset in (preceding base + reference over the targeton)
+        if bg and tag == 'pam':
+            # the protected sequence is in background coordinates: POS (a reference coordinate) is read through the liftover
+            if lift is None:
+                continue
+            qs, q = lift.r2a(rs), lift.r2a(rec['pos'])
+            if qs is None or q is None or any(lift.r2a(rec['pos'] + i) != q + i for i in range(n + 1)):
+                continue        # the record's span is not contiguous in the background: C06's relation decides those rows
+            X = (prev_alt or '?') + pam_seq
+            o = q - (qs - 1)
+        else:
+            X = (prev_ref or '?') + ref_seq if tag == 'ref' else (prev_alt or '?') + pam_seq
+            o = o_ref
         if o < 0 or o + n > len(X) or (o == 0 and X[0] == '?'):
             out.append((f'vcf_{tag}_pos', f'record {rec["pos"]} {rec["ref"]}>{rec["alt"]} outside the targeton (+1 base)'))
             continue
@@ -152,7 +161,7 @@ def check_vcf(row: dict, r1, r2, prev_ref: str | None, prev_alt: str | None, rc:
                 out.append((f'vcf_{tag}_alt' + ('_anchor' if anchor_only else ''), f'{tag} VCF {rec["pos"]} {rec["ref"]}>{rec["alt"]} does not reproduce the sequence'))
         if tag == 'pam':
             R = (prev_ref or '?') + ref_seq
-            unprot = R[o:o + n]
+            unprot = R[o_ref:o_ref + n]
             has = 'SGE_REF' in rec['info']
             if unprot != rec['ref'] and (not has or rec['info']['SGE_REF'] != unprot):
                 out.append(('vcf_sge_ref', f"PAM VCF {rec['pos']} {rec['ref']}>{rec['alt']}: SGE_REF={rec['info'].get('SGE_REF')} but the unprotected reference is {unprot}"))
